@@ -94,7 +94,7 @@ DEFAULT_CMAP = {
 EXTRA_CMAP = {"j": "down", "k": "up", "h": "left", "l": "right"}
 KIND_NAME = {"pile": "Pile", "cols": "Columns", "grid": "GridFlow", "frame": "Frame", "overlay": "Overlay", "list": "ListBox", "leaf": "leaf"}
 LISTLIKE = ("pile", "cols", "grid", "list")
-TAGCLASS = {"build": "build", "render": "render", "key": "input", "mouse": "input", "focus-set": "assign", "path-set": "assign", "mutate": "edit"}
+TAGCLASS = {"build": "build", "render": "render", "key": "input", "mouse": "input", "focus-set": "assign", "path-set": "assign", "mutate": "edit", "mutate-raised": "edit-raised"}
 
 
 # ====================================================================== live tree + shadow
@@ -310,6 +310,8 @@ class Session:
         self.persisted: set = set()
         self.bycatch: list = []
         self.stop = None
+        self.edit_exc = None
+        self.pending_target = None
         self.fresh_canvas = None
         self.screen_canvas = None
         self.size = SIZES[0]
@@ -330,6 +332,8 @@ class Session:
 
     # ------------------------------------------------------------ reporting
     def v(self, sig, msg):
+        if self.edit_exc:
+            msg = f"{msg}  [state left behind by a valid edit that raised: {self.edit_exc}]"
         if sig not in self.seen_sigs:
             self.seen_sigs.add(sig)
             self.viol.append((sig, msg))
@@ -883,20 +887,80 @@ class Session:
             return (child.w, cols_opt(opt))
         return (child.w, ("given", n.rec["cw"]))
 
+    def selectable_clause(self, n, opname):
+        self.c("clause:selectable_after_mutation")
+        exp = any(c.w.selectable() for c in n.ch)
+        try:
+            got = n.base.selectable()
+        except Exception as e:  # noqa: BLE001
+            self.v(f"C08|{KIND_NAME[n.kind]}|selectable-after-contents-edit|raise:{type(e).__name__}", f"{KIND_NAME[n.kind]} cid={n.cid} after {opname}: selectable() raised {e}")
+            return
+        if bool(got) != exp:
+            self.v(
+                f"C08|{KIND_NAME[n.kind]}|selectable-after-contents-edit|says:{bool(got)}|children-say:{exp}",
+                f"{KIND_NAME[n.kind]} cid={n.cid} after {opname}: selectable()={got!r} but children {[(c, c.w.selectable()) for c in n.ch]}",
+            )
+
     def after_mutation(self, n, opname):
         self.saved = None
         self.c("mutations")
         self.c(f"mut:{n.kind}:{opname}")
         if n.kind in ("pile", "cols", "grid"):
-            self.c("clause:selectable_after_mutation")
-            exp = any(c.w.selectable() for c in n.ch)
-            got = self.guard("selectable", n.base.selectable)
-            if bool(got) != exp:
-                self.v(
-                    f"C08|{KIND_NAME[n.kind]}|selectable-after-contents-edit|says:{bool(got)}|children-say:{exp}",
-                    f"{KIND_NAME[n.kind]} cid={n.cid} after {opname}: selectable()={got!r} but children {[(c, c.w.selectable()) for c in n.ch]}",
-                )
+            self.selectable_clause(n, opname)
         self.check_all("mutate")
+
+    # an exception escaping a VALID edit: the crash itself is by-catch, but the state it leaves behind is judged
+    def resync(self, n):
+        by = self.world.by_wid
+        b = n.base
+        try:
+            if n.kind in LISTLIKE:
+                n.ch = [by[id(w)] for w in self.real_children(n) if id(w) in by]
+            elif n.kind == "frame":
+                for p in ("header", "body", "footer"):
+                    w = getattr(b, p)
+                    n.parts[p] = by.get(id(w)) if w is not None else None
+            else:
+                for i in (0, 1):
+                    w = b.contents[i][0]
+                    if id(w) in by:
+                        n.parts[i] = by[id(w)]
+        except Exception:  # noqa: BLE001
+            pass
+
+    def mguard(self, n, opname, fn, *a):
+        try:
+            return fn(*a)
+        except Exception as e:  # noqa: BLE001
+            sig = f"crash|mutate|{type(e).__name__}|in:{urwid_frame(e)}"
+            self.c("bycatch_crashes")
+            self.c(f"bycatch:{sig}")
+            self.bycatch.append((sig, f"{type(e).__name__}: {e}"))
+            self.c("edits_that_raised")
+            self.c(f"edit_raised:{n.kind}:{opname}")
+            self.saved = None
+            self.edit_exc = f"{opname} raised {type(e).__name__}: {e}"
+            self.resync(n)  # the shadow follows what the half-done edit really left in contents
+            if n.kind in ("pile", "cols", "grid"):
+                self.selectable_clause(n, opname + "(raised)")
+            self.check_all("mutate-raised")
+            raise Crash from e
+
+    def focus_where(self, n):
+        L = len(n.ch)
+        if L == 0:
+            return "empty"
+        try:
+            p = n.base.focus_position
+        except Exception:  # noqa: BLE001
+            return "unreadable"
+        if L == 1:
+            return "only"
+        if p == 0:
+            return "first"
+        if p == L - 1:
+            return "last"
+        return "middle"
 
     def op_listmut(self, op):
         kind, cid = op[0], op[1]
@@ -904,79 +968,118 @@ class Session:
         if n is None or n.kind not in LISTLIKE:
             self.c("op_skipped_detached")
             return
-        rl = n.base.body if n.kind == "list" else n.base.contents
+        b = n.base
+        rl = b.body if n.kind == "list" else b.contents
         L = len(n.ch)
+        where = self.focus_where(n)
         build = lambda r: self.guard("build", self.world.build, r)  # noqa: E731
 
         def items(specs):
             nodes = [build(r) for r, _o in specs]
             return nodes, [self.mk_item(n, c, o) for c, (_r, o) in zip(nodes, specs)]
 
+        def done(opname):
+            self.c(f"edit_focus_at:{where}|{opname}")
+            return self.after_mutation(n, opname)
+
+        def mg(opname, fn, *a):
+            return self.mguard(n, opname, fn, *a)
+
+        def iadd_attr(its):
+            if n.kind == "list":
+                bd = b.body
+                bd += its
+                b.body = bd
+            else:
+                c = b.contents
+                c += its
+                b.contents = c
+
         if kind == "ins":
             _, _, idx, spec, how = op
             nodes, its = items([spec])
             if how == "insert":
-                self.guard("mutate", rl.insert, idx, its[0])
+                mg(how, rl.insert, idx, its[0])
                 n.ch.insert(idx, nodes[0])
             elif how == "append":
-                self.guard("mutate", rl.append, its[0])
+                mg(how, rl.append, its[0])
                 n.ch.append(nodes[0])
-            else:
-                self.guard("mutate", rl.extend, its)
+            elif how == "iadd":
+                mg(how, rl.__iadd__, its)
                 n.ch.extend(nodes)
-            return self.after_mutation(n, how)
+            elif how == "iadd_attr":
+                mg(how, iadd_attr, its)
+                n.ch.extend(nodes)
+            else:
+                mg("extend", rl.extend, its)
+                n.ch.extend(nodes)
+            return done(how)
         if kind == "del":
             _, _, idx, how = op
             if not -L <= idx < L:
                 self.c("op_skipped_index")
                 return None
+            last = idx in (-1, L - 1)
+            label = {"del": "del[i]", "pop": "pop(i)", "pop()": "pop()", "remove": "remove(item)"}[how]
+            if how != "pop()":
+                label += ":last" if last else (":neg" if idx < 0 else "")
+                if idx == -1:
+                    label = label.replace(":last", ":-1")
             if how == "del":
-                self.guard("mutate", rl.__delitem__, idx)
+                mg(label, rl.__delitem__, idx)
             elif how == "pop":
-                self.guard("mutate", rl.pop, idx)
+                mg(label, rl.pop, idx)
+            elif how == "pop()":
+                idx = -1
+                mg(label, rl.pop)
             else:
-                self.guard("mutate", rl.remove, rl[idx])
+                mg(label, rl.remove, rl[idx])
             del n.ch[idx]
-            return self.after_mutation(n, how)
+            return done(label)
         if kind == "setitem":
             _, _, idx, spec = op
             if not -L <= idx < L:
                 self.c("op_skipped_index")
                 return None
             nodes, its = items([spec])
-            self.guard("mutate", rl.__setitem__, idx, its[0])
+            mg("setitem", rl.__setitem__, idx, its[0])
             n.ch[idx] = nodes[0]
-            return self.after_mutation(n, "setitem")
+            return done("setitem")
         if kind == "slice":
-            _, _, a, b, specs, how = op
+            _, _, a, b2, specs, how = op
             if how == "del":
-                self.guard("mutate", rl.__delitem__, slice(a, b))
-                del n.ch[a:b]
-                return self.after_mutation(n, "delslice")
+                mg("delslice", rl.__delitem__, slice(a, b2))
+                del n.ch[a:b2]
+                return done("delslice")
             nodes, its = items(specs)
-            self.guard("mutate", rl.__setitem__, slice(a, b), its)
-            n.ch[a:b] = nodes
-            return self.after_mutation(n, "setslice")
+            mg("setslice", rl.__setitem__, slice(a, b2), its)
+            n.ch[a:b2] = nodes
+            return done("setslice")
         if kind == "clear":
             how = op[2]
             if how == "clear":
-                self.guard("mutate", rl.clear)
+                mg("clear()", rl.clear)
             elif how == "delall":
-                self.guard("mutate", rl.__delitem__, slice(None))
+                mg("del[:]", rl.__delitem__, slice(None))
             elif how == "assign" or n.kind == "list":
-                self.guard("mutate", rl.__setitem__, slice(None), [])
+                mg("[:]=[]", rl.__setitem__, slice(None), [])
             else:
-                self.guard("mutate", setattr, n.base, "contents", [])
+                mg("contents=[]", setattr, b, "contents", [])
             n.ch = []
-            return self.after_mutation(n, "clear:" + how)
+            return done("clear:" + how)
         if kind == "assign":
             nodes, its = items(op[2])
-            if n.kind == "list":
-                self.guard("mutate", rl.__setitem__, slice(None), its)
+            how = op[3] if len(op) > 3 else "setter"
+            if n.kind == "list" or how == "slice":
+                mg("[:]=items", rl.__setitem__, slice(None), its)
             else:
-                self.guard("mutate", setattr, n.base, "contents", its)
+                mg("contents=items", setattr, b, "contents", its)
             n.ch = nodes
-            return self.after_mutation(n, "contents=")
+            return done("[:]=items" if (n.kind == "list" or how == "slice") else "contents=items")
+        if kind == "reverse":
+            mg("reverse()", rl.reverse)
+            n.ch.reverse()
+            return done("reverse()")
         raise ValueError(op)
 
     def op_frame(self, cid, part, rec, how):
@@ -990,16 +1093,16 @@ class Session:
                 self.c("op_skipped_index")
                 return
             if how == "del":
-                self.guard("mutate", b.contents.__delitem__, part)
+                self.mguard(n, "frame-del", b.contents.__delitem__, part)
             else:
-                self.guard("mutate", setattr, b, part, None)
+                self.mguard(n, "frame-attr=None", setattr, b, part, None)
             n.parts[part] = None
             return self.after_mutation(n, f"remove-{part}")
         child = self.guard("build", self.world.build, rec)
         if how == "contents":
-            self.guard("mutate", b.contents.__setitem__, part, (child.w, None))
+            self.mguard(n, "frame-contents[part]=", b.contents.__setitem__, part, (child.w, None))
         else:
-            self.guard("mutate", setattr, b, part, child.w)
+            self.mguard(n, "frame-attr=", setattr, b, part, child.w)
         n.parts[part] = child
         return self.after_mutation(n, f"replace-{part}")
 
@@ -1012,12 +1115,12 @@ class Session:
         child = self.guard("build", self.world.build, rec)
         if how == "item":
             opts = b.contents[which][1]
-            self.guard("mutate", b.contents.__setitem__, which, (child.w, opts))
+            self.mguard(n, "overlay-contents[i]=", b.contents.__setitem__, which, (child.w, opts))
             n.parts[which] = child
         else:
             cur = [b.contents[0], b.contents[1]]
             cur[which] = (child.w, cur[which][1])
-            self.guard("mutate", setattr, b, "contents", cur)
+            self.mguard(n, "overlay-contents=", setattr, b, "contents", cur)
             n.parts[which] = child
         return self.after_mutation(n, f"replace-{'top' if which else 'bottom'}")
 
@@ -1043,7 +1146,7 @@ class Session:
             self.op_save()
         elif k == "restore":
             self.op_restore()
-        elif k in ("ins", "del", "setitem", "slice", "clear", "assign"):
+        elif k in ("ins", "del", "setitem", "slice", "clear", "assign", "reverse"):
             self.op_listmut(op)
         elif k == "frame":
             self.op_frame(op[1], op[2], op[3], op[4])
@@ -1156,6 +1259,8 @@ def gen_op(rng, gen, s: Session):
     nodes = all_nodes(s.root)
     conts = [n for n in nodes if n.kind != "leaf"]
     x = rng.random()
+    if s.pending_target is not None:
+        x = 0.99
     if x < 0.38 and rng.random() < 0.8:
         try:
             if not s.root.w.selectable():  # MainLoop would not deliver the key: spend the op on something else
@@ -1214,18 +1319,57 @@ def gen_op(rng, gen, s: Session):
             return ["save"]
         return ["restore"]
     # ---- contents mutations
-    n = rng.choice(conts)
+    n = None
+    if s.pending_target is not None:  # second half of "put the focus on first/last/middle, then edit"
+        n = s.find(s.pending_target)
+        s.pending_target = None
+        if n is not None and n.kind not in LISTLIKE:
+            n = None
+        edge = n is not None
+    else:
+        edge = False
+    if n is None:
+        n = rng.choice(conts)
     can_grow = gen.room(8)
     if n.kind in LISTLIKE:
         L = len(n.ch)
+        if not edge and L and rng.random() < 0.45:
+            s.pending_target = n.cid
+            return ["focus", n.cid, rng.choice([0, L - 1, L - 1, L // 2])]
         y = rng.random()
+        if edge and L and y < 0.75:
+            # the list-mutating calls a user makes at the ends of `contents` / of a walker
+            f = s.focus_where(n)
+            try:
+                fp = n.base.focus_position
+            except Exception:  # noqa: BLE001
+                fp = 0
+            z = rng.random()
+            if z < 0.16:
+                return ["del", n.cid, -1, "pop()"]
+            if z < 0.30:
+                return ["del", n.cid, rng.choice([-1, -1, L - 1, 0, fp if isinstance(fp, int) and -L <= fp < L else 0]), "pop"]
+            if z < 0.42:
+                return ["del", n.cid, rng.choice([-1, -1, L - 1, 0]), "del"]
+            if z < 0.54:
+                return ["del", n.cid, rng.choice([-1, L - 1, 0, fp if isinstance(fp, int) and -L <= fp < L else 0]), "remove"]
+            if z < 0.66:
+                return ["reverse", n.cid]
+            if z < 0.82 and can_grow:
+                return ["ins", n.cid, rng.choice([0, L, -1]), gen_new_child(gen, n), rng.choice(["append", "extend", "iadd", "iadd_attr", "insert"])]
+            if z < 0.92 and can_grow:
+                return ["assign", n.cid, [gen_new_child(gen, n) for _ in range(rng.randint(1, 3))], rng.choice(["slice", "setter"])]
+            del f
+            return ["slice", n.cid, rng.choice([0, L - 1]), L, [], "del"]
         if (y < 0.36 or L == 0) and can_grow:
-            how = rng.choice(["insert", "insert", "append", "extend"])
+            how = rng.choice(["insert", "insert", "append", "extend", "iadd", "iadd_attr"])
             return ["ins", n.cid, rng.randint(-1, L + 1), gen_new_child(gen, n), how]
         if y < 0.60 and L:
-            return ["del", n.cid, rng.randrange(-L, L), rng.choice(["del", "del", "pop", "remove"])]
-        if y < 0.70 and L and can_grow:
+            return ["del", n.cid, rng.randrange(-L, L), rng.choice(["del", "del", "pop", "pop()", "remove"])]
+        if y < 0.68 and L and can_grow:
             return ["setitem", n.cid, rng.randrange(-L, L), gen_new_child(gen, n)]
+        if y < 0.73 and L:
+            return ["reverse", n.cid]
         if y < 0.85:
             a = rng.randint(0, L)
             b = rng.randint(a, L)
@@ -1234,7 +1378,7 @@ def gen_op(rng, gen, s: Session):
             return ["slice", n.cid, a, b, [gen_new_child(gen, n) for _ in range(rng.randint(0, 2))], "set"]
         if y < 0.93 or not can_grow:
             return ["clear", n.cid, rng.choice(["clear", "delall", "assign", "prop"])]
-        return ["assign", n.cid, [gen_new_child(gen, n) for _ in range(rng.randint(1, 3))]]
+        return ["assign", n.cid, [gen_new_child(gen, n) for _ in range(rng.randint(1, 3))], rng.choice(["slice", "setter"])]
     if n.kind == "frame":
         part = rng.choice(["header", "footer", "body", "header", "footer"])
         if part != "body" and (rng.random() < 0.45 or not can_grow):
